@@ -1,11 +1,12 @@
 (** Extraction of the executable impedance model (ExtrOcamlBasic only). *)
 From Coq Require Import Extraction ExtrOcamlBasic.
 From Coq Require Import List ZArith QArith Qcanon.
-From Inovesa Require Import Base.FieldKit Base.Float32 Model.Impedance.
+From Inovesa Require Import Base.FieldKit Base.Float32 Model.Impedance Model.ImpKit Model.ImpedanceSpec Model.ImpGenInst.
 
 Extraction Language OCaml.
 
 Extraction "model_imp.ml"
   Q2Qc this rnd32 Qcz
   shape_push shape_const shape_pp sum_q factory_q
-  accept_fs accept_rw accept_const cube_ok sqrt_ok.
+  accept_fs accept_rw accept_const cube_ok sqrt_ok
+  gen_sum_q gen_const_q gen_factory_q accept_fs_spec accept_rw_spec accept_coll_spec.
